@@ -23,11 +23,38 @@ type SeqExplorer struct {
 }
 
 // Explore runs the search for this worker's shard (level-2 subtrees are dealt round-robin).
+// In the thorough tier the maximum depth is raised one level at a time (iterative deepening), so
+// that when the time budget cuts the run the evidence still names the deepest bound that was
+// explored completely ("completed_max_depth").
 func (e *SeqExplorer) Explore() {
-	e.seen = map[string]int{}
 	if e.MaxDepth < e.FullDepth {
 		e.MaxDepth = e.FullDepth
 	}
+	if !e.C.Thorough() {
+		e.exploreTo(e.MaxDepth)
+		if e.C.Expired() {
+			e.C.Min("completed_max_depth", int64(e.FullDepth)-1)
+		} else {
+			e.C.Min("completed_max_depth", int64(e.MaxDepth))
+		}
+		return
+	}
+	final := e.MaxDepth
+	done := e.FullDepth - 1
+	for md := e.FullDepth; md <= final; md++ {
+		e.exploreTo(md)
+		if e.C.Expired() {
+			break
+		}
+		done = md
+	}
+	// the minimum over every explorer run (configuration, backend) and every shard
+	e.C.Min("completed_max_depth", int64(done))
+}
+
+func (e *SeqExplorer) exploreTo(maxDepth int) {
+	e.seen = map[string]int{}
+	e.MaxDepth = maxDepth
 	// depth-1 nodes are executed by shard 0 only (they are prefixes of everything)
 	for a := 0; a < e.NOps; a++ {
 		seq := []int{a}
